@@ -4,10 +4,14 @@ CONSTANTS Procs = {p1, p2}
  Caught = {"trunc"}
  GuardedRemove = TRUE
  Merge = TRUE
- InitKinds = {"missing", "empty", "partial", "valid", "stale", "junk"}
+ RemovesStale = TRUE
+ ChecksFolder = TRUE
+ ExistOk = TRUE
+ InitKinds = {"missing", "empty", "partial", "valid", "stale", "junk", "nofolder"}
 SPECIFICATION Spec
 INVARIANT NoFatal
 INVARIANT NeverTrustDamaged
+INVARIANT NeverTrustStale
 INVARIANT MutualExclusion
 
 CHECK_DEADLOCK FALSE
